@@ -592,7 +592,10 @@ func (s *Server) stopLocked(err error) {
 	var keep jmessages
 	s.inq.Each(func(cur jmessages) bool {
 		for _, req := range cur {
-			if req.isNotification() {
+			if req.isNotification() && req.err == nil {
+				// N.B. An invalid message without an ID would be answered
+				// with an error, and there is no longer a channel to send
+				// that to, so only valid notifications are retained.
 				keep = append(keep, req)
 				s.log("Retaining notification %p", req)
 			} else {
